@@ -191,6 +191,11 @@ func c10Universe(quick bool) []c10val {
 		pv("slice(None)", "slice(None)"),
 		pv("slice(1,2,0)", "slice(1, 2, 0)"),
 		pv("slice(big)", "slice(-9223372036854775808, 9223372036854775807, 2)"),
+		// objects that hold values whose Go representation cannot be compared or hashed by the host
+		pv("slice(containers)", "slice((1,), [2], {'a': 1})"),
+		pv("tuple-method", "(1,).count"),
+		pv("dict-of-tuple", "{'a': (1,)}"),
+		pv("exc-tuple-arg", "KeyError((1,))"),
 		pv("generator", "mkgen()"),
 		pv("started-generator", "mkstarted()"),
 		pv("exhausted-iterator", "mkexhausted()"),
